@@ -327,10 +327,10 @@ def _mk():
 
     def b_setattr(it, a, k, n):
         v, name, val = a
-        if isinstance(v, Obj) and isinstance(name, str):
-            v.attrs[name] = val
-            v.stores.append((name, val))
-        it.log("setattr", n, obj=v, attr=name, value=val)
+        if isinstance(name, str):
+            it.setattr_value(v, name, val, n)
+        else:
+            it.log("setattr", n, obj=v, attr=name, value=val)
         return None
 
     def b_reversed(it, a, k, n):
